@@ -16,6 +16,7 @@ class Gen:
         self.rng = rng
         self.multibyte = multibyte
         self.looks = looks
+        self.allow_empty = False
 
     def atom_char(self):
         r = self.rng
@@ -68,6 +69,8 @@ class Gen:
 
     def pattern(self):
         r = self.rng
+        if self.allow_empty and r.random() < 0.05:
+            return self.maybe_empty(r.randint(0, 2))
         p = self.nonempty(r.randint(0, 3))
         if self.looks and r.random() < 0.35:
             p += r.choice(LOOKS_END)
@@ -84,6 +87,7 @@ def rust_str(s):
 
 def random_definition(rng, name, forced_accept=True, looks=True, multibyte=True, n_leaves=None, bytes_mode=False):
     g = Gen(rng, multibyte=multibyte and not bytes_mode, looks=looks)
+    g.allow_empty = not forced_accept
     n = n_leaves or rng.randint(2, 6)
     variants = []
     prios = list(range(1, 4 * n + 1))
